@@ -154,9 +154,10 @@ func TestVerif_C23(t *testing.T) {
 	vx.Run(t, "C23", func(c *vx.Ctx) {
 		P := int64(vx.Pick(c, 400, 900))
 		LMax := int64(vx.Pick(c, 700, 1500))
-		c.Rule(fmt.Sprintf("small: every -1 <= A < pn < %d (A = -1: nothing acknowledged) x every receiver largest L in [0,%d]; boundary: for n in 1..4, A in base+{-1,0,1} for bases {0,2^8,2^16,2^24,2^32,2^40,2^61,2^62-2^33, top of the space}, pn-A in {1,2,h-2,h-1,h,h+1} for every half window h in {2^7,2^15,2^23,2^31} (kept when < 2^31), L in {A,A+1,pn-1,pn} and pn-1+d for d in {-h,-h+1,-h+2,-1,0,1,h-2,h-1} for every h; sweep: for a length n and pn on both sides of win-aligned block edges, every L with L+1-pn in [-h,h) (quick: complete for n<=3 and 2^17 values at each edge and around 0 for n=4; thorough: complete for n=4 too). Non-trivial = a case in which at least one decode in the property's domain was executed and compared with the sent number.", P, LMax))
+		c.Rule(fmt.Sprintf("small: every -1 <= A < pn < %d (A = -1: nothing acknowledged) x every receiver largest L in [0,%d]; boundary: for n in 1..4, A in base+{-1,0,1} for bases {0,2^8,2^16,2^24,2^32,2^40,2^61,2^62-2^33, top of the space}, pn-A in {1,2,h-2,h-1,h,h+1} for every half window h in {2^7,2^15,2^23,2^31} (kept when < 2^31), L in {A,A+1,pn-1,pn} and pn-1+d for d in {-h,-h+1,-h+2,-1,0,1,h-2,h-1} for every h; sweep: for a length n and pn on both sides of win-aligned block edges, every L with L+1-pn in [-h,h) (quick: complete for n<=3 and 2^17 values at each edge and around 0 for n=4; thorough: complete for n=4 too). wire: a real protected packet per case, built by the real packetWriter (short header: start/finish1RTTPacket; long header: start/finishProtectedLongHeaderPacket for Initial with the real Initial keys, Handshake and 0-RTT) for packet number pn with the sender's largest acked A, parsed by parse1RTTPacket / parseLongHeaderPacket with pnumMax = largestSeen() of a real ackState that received L; for every length n in 1..4: pn-A in {smallest, largest distance selecting n}, A = -1, A = 0 and pn = k*2^(8n)+r for k in {1,3,last block of the 62-bit space} (thorough: {1,2,3,2^20,last-1,last}), r in {0,1,h-1,h,2^(8n)-1} (thorough: also 2,h-2,h+1,2^(8n)-2); L in {A, A+1} and pn-L, L-pn in {0,1,h'-2,h'-1,h',h'+1} for every half window h' in {2^7,2^15,2^23,2^31}; x header protection / AEAD suites {AES128, AES256, CHACHA20} for 1-RTT and Handshake (0-RTT: AES128, thorough all three). Non-trivial = a case in which at least one decode in the property's domain was executed and compared with the sent number.", P, LMax))
 		c.Assume("the sender's precondition pn - largestAck < 2^31 (no encoding of <= 4 bytes can satisfy the property otherwise) and 0 <= pn, L <= 2^62-1, -1 <= A < pn")
 		c.Assume("receiver domain: A <= L < pn under the length chosen for A, and -h < L+1-pn < h for every length; the tie pn == L+1+h is checked against RFC 9000 A.3 (which decodes it to the upper candidate) under its own clause; pn == L+1-h is undecodable and not checked; results for L outside the window are not checked")
+		c.Assume("wire part: one packet per datagram, 8-byte destination connection id, fixed secrets, no key update in progress (both ends in key phase 0), the receiver state is an ackState that received exactly packet L; a packet the receive path drops in the property's domain counts as a wrong decode (a wrongly reconstructed number fails AEAD authentication); the Conn-level call sites in conn_recv.go / conn_send.go are not executed")
 
 		var decodes atomic.Int64 // reporting only
 		defer func() { c.Note("in_domain_decodes_compared", decodes.Load()) }()
@@ -292,5 +293,9 @@ func TestVerif_C23(t *testing.T) {
 				w.Outcome(fmt.Sprintf("decode len=%d %s", x.N, k))
 			}
 		})
+
+		// wire: the same round trip through the real packet writer, packet
+		// protection and receive path (c23_wire_test.go).
+		c23WirePart(c, &decodes)
 	})
 }
